@@ -9,7 +9,14 @@ use harper_core::{Dialect, Document, IgnoredLints};
 use serde_json::{Value, json};
 use std::collections::{BTreeMap, BTreeSet};
 
-pub const TEXTS: &[&str] = &["I like my tset.", "This is an tset of teh thing.", "All is fine here.", "Ünï 😀 teh tset.\nSecond line an apple"];
+pub const TEXTS: &[&str] = &[
+    "I like my tset.",
+    "This is an tset of teh thing.",
+    "All is fine here.",
+    "Ünï 😀 teh tset.\nSecond line an apple",
+    "The tset and thw met naïvité, O'Brienx and ŁÓDŹx in an hour.",
+    "Again thw, ŁÓDŹx, tset; then naïvité left O'Brienx there there.",
+];
 
 #[derive(Clone, Debug, PartialEq)]
 pub enum Op {
@@ -158,6 +165,29 @@ impl Session {
 
     pub fn uri(&self, d: usize) -> String {
         self.world.uri(self.client.docs[d].name)
+    }
+
+    /// Server restart: a new server process on the same directories; the editor re-sends didOpen
+    /// for every buffer it has open.
+    pub fn restart(&mut self) -> Result<(), String> {
+        let settings = self.world.settings(serde_json::from_str(CONFIGS[self.client.config]).unwrap(), "American");
+        self.server = Server::new(self.world.config(), settings);
+        self.server.boot()?;
+        for d in 0..self.client.docs.len() {
+            if self.client.docs[d].open {
+                let uri = self.uri(d);
+                let doc = &self.client.docs[d];
+                let req = Server::notification("textDocument/didOpen", json!({"textDocument": {"uri": uri, "languageId": doc.lang, "version": 1, "text": doc.text}}));
+                self.server.enqueue("reopen", req);
+                self.server.run_default()?;
+            }
+        }
+        Ok(())
+    }
+
+    pub fn file_dict_path(&self, d: usize) -> std::path::PathBuf {
+        let url = tower_lsp::lsp_types::Url::parse(&self.uri(d)).unwrap();
+        self.world.file_dict_dir.join(crate::dictionary_io::file_dict_name(&url).unwrap())
     }
 
     /// Is the operation something a real editor could send in the current client state?
